@@ -215,6 +215,17 @@ func runWorld(spec *Spec, ch *sim.Choices, res *Result, uniq string) {
 		}
 		finish(w.Stats, w.Nontrivial(), p)
 		res.Digest = w.Digest()
+	case "update":
+		w := worlds.NewUpdate(s, spec.Prop)
+		if err := w.Setup(); err != nil {
+			res.Infra = "setup: " + err.Error()
+			return
+		}
+		s.Run(w.Done)
+		if !w.Done() {
+			res.Infra = "run ended before the final check: " + s.Stopped
+		}
+		finish(w.Stats, w.Stats["state_checks"] > 2, map[string]any{"ops": w.OpLog()})
 	case "lb":
 		s.Horizon = time.Hour
 		w := worlds.RunLB(s, spec.Prop, uniq)
